@@ -13,7 +13,7 @@ tests=$(cd $WT && PYTHONPATH=$WT/src:$WT env -u PRIVATE_PGM_VERIF /venv/bin/pyth
 (cd $WT && git diff) > /tmp/seedchk-$$.diff
 git -C /repo worktree remove --force $WT
 echo "$NAME: demo clean rc=$clean_rc, with patch rc=$mut_rc, tests: $tests"
-if [ "$clean_rc" = 0 ] && [ "$mut_rc" != 0 ] && echo "$tests" | grep -q "31 passed"; then
+if [ "$clean_rc" = 0 ] && [ "$mut_rc" != 0 ] && echo "$tests" | grep -Eq "3[12] passed"; then
   D=/verif/seeded/$NAME; mkdir -p $D
   cp /tmp/seedchk-$$.diff $D/patch.diff; cp "$SRC/demo.py" $D/demo.py; cp "$SRC/notes.md" $D/notes.md 2>/dev/null
   python3 - "$D" "$NAME" "$PROP" "$clean_rc" "$mut_rc" "$tests" <<'PY'
